@@ -648,7 +648,8 @@ class StrengthModel:
         strongContributions = np.array(strongContributions)
         strongContributions[(strongContributions < 0) | ~np.isfinite(strongContributions)] = 0
         tauowo = np.array(self.orowan(rss, Ls))
-        tauowo[~np.isfinite(tauowo)] = 0
+        #Below the dislocation core (2r < ri) the logarithm is negative: clip at zero like the other contributions
+        tauowo[(tauowo < 0) | ~np.isfinite(tauowo)] = 0
         return weakContributions, strongContributions, tauowo, contributionsList
     
     def combineStrengthContributions(self, weakContributions, strongContributions, orowan, returnComparison = False):
